@@ -83,6 +83,10 @@ func (p *prop) Generate(rng *core.Rand, tier string, emit func(string)) {
 	for i := 0; i < nSite/6; i++ {
 		emit(genFauthCase(rgl))
 	}
+	// ---- site blocks whose policies / host lists / routes are merged by the adapter, 64 adaptations each
+	for i := 0; i < nSite/8; i++ {
+		emit(genMergeCase(rgl))
+	}
 	// ---- site-level named matchers used at top level, in nested blocks and inside handle_errors
 	for i := 0; i < nSite/3; i++ {
 		emit(genNmeqCase(rgl))
